@@ -85,8 +85,21 @@ def run_case(spec, ctx, want_B=False):
         ctx.count('not_optimal')
         # feasible (xstar) and bounded (boxes) by construction
         st = str(getattr(B.model.solution, 'status', None))
+        xs = np.array(spec['xstar'], float)
+        boxed = all(np.isfinite(b['lo']) and np.isfinite(b['hi']) for b in spec['bounds'])
+        if C.definitive_failure(sname, st) and boxed and not D.violations(spec, xs, tol=0.0) \
+                and D.objective_in_domain(spec, xs):
+            return {'status': 'violation', 'features': f, 'sig': sig, 'nontrivial': True,
+                    'mechanism': 'status_mismatch:' + f['obj'],
+                    'detail': [{'what': 'model is feasible (point below satisfies every user '
+                                'constraint) and all variables are boxed, yet it is reported '
+                                'infeasible/unbounded', 'status': st, 'solver': sname,
+                                'feasible_point': xs.tolist(),
+                                'objective_there': D.objective(spec, xs)}],
+                    'not_optimal': True}
         return {'status': 'skip', 'reason': 'not optimal: %s %s' % (sname, st[:40]),
-                'features': f, 'not_optimal': True}
+                'features': f, 'not_optimal': True,
+                'definitive': C.definitive_failure(sname, st)}
     x = D.read_x(spec, B)
     tol = 1e-6 if sname in ('def', 'ort', 'grb', 'lpg') and D.cone_need(spec) == 'L' else 2e-5
     viol = D.violations(spec, x, tol=tol)
